@@ -163,11 +163,15 @@ class Slice(NullCell):
         return self.load_bytes(byte_length).decode()
 
     def load_snake_bytes(self) -> bytes:
-        assert not self.remaining_bits % 8, f'invalid string length: {self.remaining_bits}'
-        assert self.remaining_refs in (0, 1), f'invalid amount of refs: {self.remaining_refs}'
-        if not self.remaining_refs:
-            return self.load_bytes(self.remaining_bits // 8)
-        return self.load_bytes(self.remaining_bits // 8) + self.load_ref().begin_parse().load_snake_bytes()
+        result = b''
+        cell_slice = self
+        while True:  # a loop, not recursion: a chain may be ~1000 cells long
+            assert not cell_slice.remaining_bits % 8, f'invalid string length: {cell_slice.remaining_bits}'
+            assert cell_slice.remaining_refs in (0, 1), f'invalid amount of refs: {cell_slice.remaining_refs}'
+            result += cell_slice.load_bytes(cell_slice.remaining_bits // 8)
+            if not cell_slice.remaining_refs:
+                return result
+            cell_slice = cell_slice.load_ref().begin_parse()
 
     def load_snake_string(self) -> str:
         return self.load_snake_bytes().decode()
